@@ -3,7 +3,7 @@ import ast
 import re
 
 from ..pymodel import AnalysisError, FuncInfo, parent
-from ..astutil import (expand_names, src, is_name, is_const, const_num, call_name, walk_no_nested, strip_docstring,
+from ..astutil import (block_of, canon, canon_src, positive_form, expand_names, src, is_name, is_const, const_num, call_name, walk_no_nested, strip_docstring,
                        compare_atoms, enclosing_stmt, calls_in, names_in, assignments_to, kwarg)
 from ..cfg import cfg_of, ENTRY, EXIT
 from .. import nullness
@@ -28,12 +28,52 @@ SPIN_FUNCS = {'anneal_puso': 'c_anneal_puso', 'anneal_quso': 'c_anneal_quso'}
 BOOL = {'anneal_pubo': ('pubo_to_puso', 'anneal_puso'), 'anneal_qubo': ('qubo_to_quso', 'anneal_quso')}
 
 
-def branches(fn):
-    """(matrix branch If, labelled branch If) of a spin front end, recognised
-    by the assignment of N."""
+def roles_of(ctx, fn):
+    """Local names by role, derived from the C call's argument positions (roles = the C wrapper's parse
+    targets), the packaging call and the marshalling loop - not from the names the front end happens to use."""
+    cname = SPIN_FUNCS[fn.name]
+    calls = [c for c in calls_in(fn.node) if is_name(c.func, cname)]
+    if len(calls) != 1:
+        raise AnalysisError("%s: expected exactly one call of %s" % (fn.name, cname))
+    call = calls[0]
+    wf = ctx.cprog.func(cname)
+    targets = []
+    for c in wf.calls:
+        if c['callee'] == 'PyArg_ParseTuple':
+            targets = [re.sub(r'^\(?&', '', t).rstrip(')').replace('py_', '') for t in c['argtxt'][2:]]
+    r = {}
+    for t, a in zip(targets, call.args):
+        if isinstance(a, ast.Name):
+            r[t] = a.id
+    r['_call'] = call
+    r['_targets'] = targets
+    pcalls = [c for c in calls_in(fn.node) if is_name(c.func, '_package_spin_results')]
+    if pcalls and len(pcalls[0].args) == 4:
+        a = pcalls[0].args
+        if isinstance(a[3], ast.Name):
+            r['rmap'] = a[3].id
+        if isinstance(a[2], ast.Attribute) and a[2].attr == 'offset' and isinstance(a[2].value, ast.Name):
+            r['model'] = a[2].value.id
+    r['_pcall'] = pcalls[0] if pcalls else None
+    # N: first C argument (puso) or the multiplier of the per-spin list h (quso)
+    if 'len_state' in r:
+        r['N'] = r['len_state']
+    elif 'h' in r:
+        for s_, v in sorted(assignments_to(fn.node, r['h']), key=lambda x: x[0].lineno):
+            if isinstance(v, ast.BinOp) and isinstance(v.op, ast.Mult) and isinstance(v.right, ast.Name):
+                r['N'] = v.right.id
+                break
+    r.setdefault('N', 'N')
+    r.setdefault('model', 'model')
+    r.setdefault('rmap', 'reverse_mapping')
+    r.setdefault('initial_state', 'init_state')
+    return r
+
+
+def branches(fn, nname):
     out = []
     for n in walk_no_nested(strip_docstring(fn.node.body)):
-        if isinstance(n, ast.Assign) and any(is_name(t, 'N') for t in n.targets):
+        if isinstance(n, ast.Assign) and any(is_name(t, nname) for t in n.targets):
             out.append(n)
     return out
 
@@ -42,21 +82,23 @@ def same_source_rules(ctx, rid, fn):
     """R11.3 / O2: N, model and reverse_mapping derive from one object."""
     g = cfg_of(fn.node)
     arg = fn.params[0]
-    nas = branches(fn)
+    ro = roles_of(ctx, fn)
+    N, MODEL, RMAP = ro['N'], ro['model'], ro['rmap']
+    nas = branches(fn, N)
     if len(nas) < 2:
-        ctx.inst(rid, fn, 'N assignments', False, "expected a Matrix branch and a labelled branch assigning N, found %d" % len(nas))
+        ctx.inst(rid, fn, 'N assignments', False, "expected a Matrix branch and a labelled branch assigning the state "
+                                                  "length `%s`, found %d" % (N, len(nas)))
         return
     for na in nas:
-        blk = parent(na)
-        body = getattr(blk, 'body', [])
-        mdl = [s for s in body if isinstance(s, ast.Assign) and any(is_name(t, 'model') for t in s.targets)]
-        rmp = [s for s in body if isinstance(s, ast.Assign) and any(is_name(t, 'reverse_mapping') for t in s.targets)]
-        nv = src(expand_names(fn.node, na.value))
+        body = block_of(na)
+        mdl = [s for s in body if isinstance(s, ast.Assign) and any(is_name(t, MODEL) for t in s.targets)]
+        rmp = [s for s in body if isinstance(s, ast.Assign) and any(is_name(t, RMAP) for t in s.targets)]
+        nv = canon_src(expand_names(fn.node, na.value))
         if 'max_index' in nv:
             kind = 'matrix'
             ok = bool(mdl) and src(mdl[0].value) == arg and bool(rmp) and \
-                src(rmp[0].value) in ('dict(enumerate(range(N)))', '{i: i for i in range(N)}') and \
-                re.fullmatch(r'%s\.max_index \+ 1( if %s\.max_index is not None else 0)?' % (arg, arg), nv) is not None
+                src(rmp[0].value) in ('dict(enumerate(range(%s)))' % N, '{i: i for i in range(%s)}' % N) and \
+                re.fullmatch(r'(0 if %s\.max_index is None else )?%s\.max_index \+ 1' % (arg, arg), nv) is not None
             why = "N = max_index + 1, model = the argument itself, identity mapping over range(N)"
             bad = "Matrix branch: N = `%s`, model = `%s`, reverse_mapping = `%s` - the state length, the marshalled terms and " \
                   "the labels do not derive from the argument's own integer labels (labels can exceed N)" % (
@@ -70,12 +112,8 @@ def same_source_rules(ctx, rid, fn):
             bad = "labelled branch: N = `%s`, model = `%s`, reverse_mapping = `%s` do not all derive from the same model" % (
                 nv, src(mdl[0].value) if mdl else None, src(rmp[0].value) if rmp else None)
         ctx.inst(rid, fn, na, ok, why if ok else bad)
-        # the branch is selected by the exact type
-        facts = []
-        for t, pol, o in g.edge_dominators(na):
-            if pol:
-                facts.append(src(t))
-        okt = any(f.startswith('type(%s)' % arg) for f in facts)
+        facts = [src(positive_form(t, pol)) for t, pol, o in g.edge_dominators(na)]
+        okt = any(('type(%s)' % arg) in f for f in facts)
         ctx.inst(rid, fn, 'type test of %s branch' % kind, okt,
                  "branch selected by type(%s)" % arg if okt else "branch is not selected by the exact type of the argument")
 
@@ -84,45 +122,47 @@ def marshalling_python(ctx, rid, fn):
     """R11.6 (Python half) / O1, O3, O4, O5."""
     g = cfg_of(fn.node)
     cname = SPIN_FUNCS[fn.name]
-    calls = [c for c in calls_in(fn.node) if is_name(c.func, cname)]
-    if len(calls) != 1:
-        raise AnalysisError("%s: expected exactly one call of %s" % (fn.name, cname))
-    call = calls[0]
+    ro = roles_of(ctx, fn)
+    call = ro['_call']
+    N, MODEL, RMAP, INIT = ro['N'], ro['model'], ro['rmap'], ro['initial_state']
     cst = enclosing_stmt(call)
     # O3: the C call is dominated by the N >= 1 guard
     facts = []
     for t, pol, o in g.edge_dominators(cst):
         facts += compare_atoms(t, pol)
-    ok = ('truthy', 'N') in facts or ('N', '>', '0') in facts or ('N', '>=', '1') in facts or ('N', '!=', '0') in facts
+    ok = ('truthy', N) in facts or (N, '>', '0') in facts or (N, '>=', '1') in facts or (N, '!=', '0') in facts
     ctx.inst(rid, fn, 'O3 guard before %s' % cname, ok,
              "the extension is only called with N >= 1 (`if not N: return` dominates the call)" if ok else
              "the C extension can be called with N == 0: the kernels write element 0 of zero-length buffers")
     # O4: init_state is [] or has length N
-    for s_, v in assignments_to(fn.node, 'init_state'):
+    for s_, v in assignments_to(fn.node, INIT):
         if not isinstance(v, ast.AST):
             continue
         t = src(v)
-        ok = t == '[]' or re.fullmatch(r'\[-?1\] \* N', t) is not None
+        ok = t == '[]' or re.fullmatch(r'\[-?1\] \* %s' % re.escape(N), t) is not None
         ctx.inst(rid, fn, s_, ok, "initial state is empty or has N entries" if ok else
-                 "init_state = `%s` is neither [] nor a list of length N: the wrapper reads len_state entries from it" % t)
+                 "%s = `%s` is neither [] nor a list of length N: the wrapper reads len_state entries from it" % (INIT, t))
     # relabelling of the supplied initial state: position k <- label reverse_mapping[k]
     rl = [n for n in walk_no_nested(strip_docstring(fn.node.body)) if isinstance(n, ast.For)
-          and src(n.iter) == 'reverse_mapping.items()' and isinstance(n.target, ast.Tuple)]
+          and src(n.iter) == '%s.items()' % RMAP and isinstance(n.target, ast.Tuple)]
+    user_init = fn.params[3] if len(fn.params) > 3 else 'initial_state'
     for lp in rl:
         kk, vv = [src(e) for e in lp.target.elts]
-        okr = len(lp.body) == 1 and src(lp.body[0]) == 'init_state[%s] = initial_state[%s]' % (kk, vv)
+        okr = len(lp.body) == 1 and src(lp.body[0]) == '%s[%s] = %s[%s]' % (INIT, kk, user_init, vv)
         ctx.inst(rid, fn, lp, okr,
                  "initial state relabelled position <- label through the reverse mapping" if okr else
                  "the supplied initial state is not relabelled as init_state[index] = initial_state[label] over the "
                  "reverse mapping: spins start from the wrong variables' values")
     if not rl:
         ctx.inst(rid, fn, 'initial state relabelling', False, "the supplied initial state is never relabelled to positions")
-    inits = [s_ for s_, v in assignments_to(fn.node, 'init_state')]
+    inits = [s_ for s_, v in assignments_to(fn.node, INIT)]
     if not inits:
         ctx.inst(rid, fn, 'init_state', False, "init_state is never built")
     if fn.name == 'anneal_quso':
-        sized = {'h': r'\[0\.0?\] \* N', 'num_neighbors': r'\[0\] \* N',
-                 'neighbors': r'\[\[\] for _ in range\(N\)\]', 'J': r'\[\[\] for _ in range\(N\)\]'}
+        H, NN, NB, JJ = ro.get('h', 'h'), ro.get('num_neighbors', 'num_neighbors'), ro.get('neighbors', 'neighbors'), ro.get('J', 'J')
+        n_ = re.escape(N)
+        sized = {H: r'\[0\.0?\] \* ' + n_, NN: r'\[0\] \* ' + n_,
+                 NB: r'\[\[\] for \w+ in range\(%s\)\]' % n_, JJ: r'\[\[\] for \w+ in range\(%s\)\]' % n_}
         for nm, pat in sized.items():
             defs = [v for s_, v in sorted(assignments_to(fn.node, nm), key=lambda x: x[0].lineno) if isinstance(v, ast.AST)]
             ok = bool(defs) and re.fullmatch(pat, src(defs[0])) is not None
@@ -141,27 +181,28 @@ def marshalling_python(ctx, rid, fn):
                 if isinstance(s_, ast.AugAssign) and isinstance(s_.target, ast.Subscript) and src(s_.target.slice) == idx \
                         and const_num(s_.value) == 1 and isinstance(s_.op, ast.Add):
                     mates.add(src(s_.target.value))
-            ok = {'neighbors', 'J', 'num_neighbors'} <= mates
+            ok = {NB, JJ, NN} <= mates
             ctx.inst(rid, fn, c, ok,
                      "neighbors[%s], J[%s] appended and num_neighbors[%s] counted together" % (idx, idx, idx) if ok else
                      "`%s` is not paired in its block with the appends to neighbors/J and the count of num_neighbors for "
                      "index %s: the C kernel walks num_neighbors[i] entries of both arrays" % (src(c), idx))
-        fl = {nm: [v for s_, v in assignments_to(fn.node, nm) if isinstance(v, ast.AST) and 'chain(' in src(v)] for nm in ('J', 'neighbors')}
-        ok = all(fl[nm] and src(fl[nm][0]) == 'list(chain(*%s))' % nm for nm in fl)
+        fl = {nm: [v for s_, v in assignments_to(fn.node, nm) if isinstance(v, ast.AST) and 'chain(' in src(v)] for nm in (JJ, NB)}
+        ok = all(fl[nm] and src(fl[nm][0]) in ('list(chain(*%s))' % nm, 'list(chain.from_iterable(%s))' % nm) for nm in fl)
         ctx.inst(rid, fn, 'flattening', ok, "J and neighbors are flattened row by row in the same order" if ok else
                  "J / neighbors are not flattened as list(chain(*rows)) of their own rows")
     else:
-        loops = [n for n in walk_no_nested(strip_docstring(fn.node.body)) if isinstance(n, ast.For) and 'model.items()' in src(n.iter)]
+        TERMS, NC, CP = ro.get('terms', 'terms'), ro.get('num_couplings', 'num_couplings'), ro.get('couplings', 'couplings')
+        loops = [n for n in walk_no_nested(strip_docstring(fn.node.body)) if isinstance(n, ast.For) and '%s.items()' % MODEL in src(n.iter)]
         if not loops:
-            raise AnalysisError("anneal_puso: term loop not found")
+            raise AnalysisError("anneal_puso: term loop over %s.items() not found" % MODEL)
         lp = loops[0]
         tv = src(lp.target.elts[0])
-        ext = [c for c in calls_in(lp, 'extend') if src(c.func.value) == 'terms']
+        ext = [c for c in calls_in(lp, 'extend') if src(c.func.value) == TERMS]
         for c in ext:
             blk = parent(enclosing_stmt(c))
             txt = [src(s_) for s_ in getattr(blk, 'body', [])]
-            ok = src(c.args[0]) == tv and any(t.startswith('num_couplings.append(len(%s))' % tv) for t in txt) and \
-                any(t.startswith('couplings.append(') for t in txt)
+            ok = src(c.args[0]) == tv and any(t.startswith('%s.append(len(%s))' % (NC, tv)) for t in txt) and \
+                any(t.startswith('%s.append(' % CP) for t in txt)
             ctx.inst(rid, fn, c, ok,
                      "terms, num_couplings and couplings are extended together for each term" if ok else
                      "terms.extend is not paired with num_couplings.append(len(term)) and couplings.append in one block")
@@ -197,7 +238,8 @@ def rules(ctx):
         arg = fn.params[0]
         # ------------------------------------------------------------ R11.1
         first = strip_docstring(fn.node.body)[0]
-        ok = isinstance(first, ast.If) and compare_atoms(first.test, True) in ([('num_anneals', '<=', '0')], [('num_anneals', '<', '1')]) \
+        ok = isinstance(first, ast.If) and (('num_anneals', '<=', '0') in compare_atoms(first.test, True) or ('num_anneals', '<', '1') in compare_atoms(first.test, True)) \
+            and not isinstance(first.test, ast.BoolOp) \
             and len(first.body) == 1 and isinstance(first.body[0], ast.Return) and src(first.body[0].value) == 'AnnealResults()'
         ctx.inst('R11.1', fn, first, ok, "num_anneals <= 0 -> AnnealResults() first" if ok else
                  "%s does not begin with `if num_anneals <= 0: return AnnealResults()`" % name)
@@ -209,24 +251,25 @@ def rules(ctx):
         cst = enclosing_stmt(call)
         res_names = [src(e) for e in cst.targets[0].elts] if isinstance(cst, ast.Assign) and isinstance(cst.targets[0], ast.Tuple) else []
         pcalls = [c for c in calls_in(fn.node) if is_name(c.func, '_package_spin_results')]
-        ok = len(pcalls) == 1 and len(res_names) == 2 and [src(a) for a in pcalls[0].args] == res_names + ['model.offset', 'reverse_mapping']
+        ro = roles_of(ctx, fn)
+        ok = len(pcalls) == 1 and len(res_names) == 2 and [src(a) for a in pcalls[0].args] == res_names + ['%s.offset' % ro['model'], ro['rmap']]
         ctx.inst('R11.2', fn, pcalls[0] if pcalls else '_package_spin_results', ok,
                  "results packaged with the C states/values, model.offset and the branch's reverse mapping" if ok else
                  "results are not packaged as _package_spin_results(states, values, model.offset, reverse_mapping)")
         items = [n for n in walk_no_nested(strip_docstring(fn.node.body)) if isinstance(n, ast.For) and src(n.iter).endswith('.items()')
-                 and 'reverse_mapping' not in src(n.iter)]
-        okm = bool(items) and all(src(n.iter) == 'model.items()' for n in items)
+                 and ro['rmap'] not in src(n.iter)]
+        okm = bool(items) and all(src(n.iter) == '%s.items()' % ro['model'] for n in items)
         ctx.inst('R11.2', fn, items[0] if items else 'term loop', okm,
                  "the marshalled terms are those of `model`, whose offset is added" if okm else
                  "the terms marshalled to C come from `%s`, not from the `model` whose offset is added" % (src(items[0].iter) if items else None))
         empt = [c for c in calls_in(fn.node) if is_name(c.func, 'AnnealResult')]
-        ok0 = bool(empt) and all(len(c.args) == 3 and src(c.args[0]) == '{}' and src(c.args[1]) == 'model.offset' and is_const(c.args[2], True) for c in empt)
+        ok0 = bool(empt) and all(len(c.args) == 3 and src(c.args[0]) == '{}' and src(c.args[1]) == '%s.offset' % ro['model'] and is_const(c.args[2], True) for c in empt)
         if ok0:
             st = enclosing_stmt(empt[0])
             facts = []
             for t, pol, o in g.edge_dominators(st):
                 facts += compare_atoms(t, pol)
-            ok0 = ('falsy', 'N') in facts and 'range(num_anneals)' in src(st)
+            ok0 = ('falsy', ro['N']) in facts and 'range(num_anneals)' in src(st)
         ctx.inst('R11.2', fn, empt[0] if empt else 'variable-free branch', ok0,
                  "N == 0 returns num_anneals results ({}, model.offset, spin)" if ok0 else
                  "the variable-free branch does not return num_anneals results AnnealResult({}, model.offset, True)")
@@ -265,12 +308,16 @@ def rules(ctx):
                 if letter == 'O':
                     okp = isinstance(a, ast.Name)
                 else:
-                    okp = at in ('N', 'num_anneals') or at.startswith('int(') or 'seed' in at
+                    okp = at in (ro['N'], 'num_anneals') or at.startswith('int(') or 'seed' in at
                 # semantic slot agreement: python name ~ C name
                 slot = tgt.replace('py_', '')
                 pyname = re.sub(r'[^a-zA-Z_]', ' ', at).split()
-                alias = {'len_state': 'N', 'initial_state': 'init_state'}
-                okn = slot in pyname or alias.get(slot) in pyname
+                # slots fed from the front end's own parameters are matched by parameter name (API names);
+                # the other slots are bound to locals by role (roles_of) and checked by R11.2, R11.3, O1-O5
+                api = {'num_anneals', 'in_order', 'seed'}
+                okn = True
+                if slot in api:
+                    okn = slot in pyname and not ((api - {slot}) & set(pyname))
                 ctx.inst('R11.6', fn, 'argument %d: %s -> %s %s (%s)' % (i, at, cty, tgt, letter), okt and okp and okn,
                          "format letter, C type and Python argument agree" if okt and okp and okn else
                          "argument %d: Python passes `%s`, format letter %r, C target `%s %s` - %s" % (
@@ -297,8 +344,7 @@ def rules(ctx):
             from ..astutil import bind_args
             b = bind_args(inner, tgt, skip_self=False)
             isv = b.get('initial_state')
-            okis = isinstance(isv, ast.IfExp) and src(isv.test) == 'initial_state is not None' and \
-                src(isv.body) == 'boolean_to_spin(initial_state)' and is_const(isv.orelse, None)
+            okis = isv is not None and canon_src(isv) == 'None if initial_state is None else boolean_to_spin(initial_state)'
             ctx.inst('R11.4', fn, isv if isv is not None else 'initial_state', okis,
                      "initial state converted to spin when given" if okis else
                      "initial_state is passed as `%s`, not boolean_to_spin(initial_state) guarded by `is not None`" % (src(isv) if isv is not None else None))
@@ -318,16 +364,21 @@ def rules(ctx):
                      "the temperature schedule is computed from another object than the model")
     # ---------------------------------------------------------------- R11.2 package
     adds = [c for c in calls_in(pk.node, 'add_state')]
-    ok = len(adds) == 1 and len(adds[0].args) == 3 and src(adds[0].args[1]) == 'values[i] + offset' and is_const(adds[0].args[2], True)
+    lp0 = [n for n in walk_no_nested(strip_docstring(pk.node.body)) if isinstance(n, ast.For)]
+    iv = src(lp0[0].target) if lp0 else 'i'
+    pst, pvl, pof, prm = (pk.params + ['states', 'values', 'offset', 'reverse_mapping'])[:4]
+    ok = len(adds) == 1 and len(adds[0].args) == 3 and src(adds[0].args[1]) in ('%s[%s] + %s' % (pvl, iv, pof), '%s + %s[%s]' % (pof, pvl, iv)) \
+        and is_const(adds[0].args[2], True)
     ctx.inst('R11.2', pk, adds[0] if adds else 'add_state', ok, "value = C energy + offset, spin flag True" if ok else
              "_package_spin_results does not add (state, values[i] + offset, True)")
     ctx.inst('R11.8', pk, adds[0] if adds else 'add_state', ok and is_const(adds[0].args[2], True), "spin flag is the literal True")
     st = [v for s_, v in assignments_to(pk.node, 'state') if isinstance(v, ast.DictComp)]
-    oks = bool(st) and src(st[0].key) == 'reverse_mapping[k]' and 'enumerate(states[i])' in src(st[0])
+    st = [n_.value for n_ in walk_no_nested(strip_docstring(pk.node.body)) if isinstance(n_, ast.Assign) and isinstance(n_.value, ast.DictComp)]
+    oks = bool(st) and isinstance(st[0].key, ast.Subscript) and src(st[0].key.value) == prm and 'enumerate(%s[%s])' % (pst, iv) in src(st[0])
     ctx.inst('R11.2', pk, 'state relabelling', oks, "each position k is relabelled through reverse_mapping" if oks else
              "states are not relabelled position by position through the reverse mapping")
     lp = [n for n in walk_no_nested(strip_docstring(pk.node.body)) if isinstance(n, ast.For)]
-    okn = bool(lp) and src(lp[0].iter) == 'range(len(states))'
+    okn = bool(lp) and src(lp[0].iter) == 'range(len(%s))' % pst
     ctx.inst('R11.2', pk, lp[0] if lp else 'loop', okn, "one result per returned state" if okn else "not every returned state becomes a result")
 
     # ---------------------------------------------------------------- R11.8 (C)
